@@ -18,7 +18,7 @@
 (* The module defines actions and properties only; bounded Next relations  *)
 (* live in the MC_* / Gen_* modules, the trace-driven one in Trace.tla.    *)
 (***************************************************************************)
-EXTENDS Translation, TLC
+EXTENDS Derive, TLC
 
 CONSTANTS NR,       \* number of sequence registers
           NK,       \* number of k-mer registers
@@ -472,6 +472,39 @@ TableAmino(t, src) ==
 
 TableCodon(t, aa) ==
     /\ out' = TableToCodon(treg[t].m, aa)
+    /\ OnlyOut
+
+(***************************************************************************)
+(* Programs (C16, C17): what a compiled literal / a derived codec shows,   *)
+(* and whether a program may compile at all                                *)
+(***************************************************************************)
+\* a literal inside a program that compiled: its value, and that it equals runtime parsing
+LitProg(macro, bytes) ==
+    /\ LitCompiles(macro, bytes)
+    /\ out' = [v |-> View(LitCodec(macro), LitValue(macro, bytes)),
+               eqparse |-> TRUE, hasheq |-> TRUE]
+    /\ OnlyOut
+
+\* kmer!("...") / kmer!("...", storage): a DNA k-mer with the literal's symbols
+KmerLit(bytes, st) ==
+    /\ LitCompiles("dna", bytes) /\ Len(bytes) >= 1 /\ 2 * Len(bytes) <= st
+    /\ out' = [kv |-> KView([c |-> "dna", k |-> Len(bytes), st |-> st, p |-> LitValue("dna", bytes)]),
+               eqparse |-> TRUE, hasheq |-> TRUE]
+    /\ OnlyOut
+
+\* does a program whose only questionable item is this literal compile?
+LitVerdict(macro, bytes) ==
+    /\ out' = [compiled |-> LitCompiles(macro, bytes)]
+    /\ OnlyOut
+
+DeriveProg(decl) ==
+    /\ DeclWellFormed(decl)
+    /\ out' = DeriveObs(decl)
+    /\ OnlyOut
+
+\* malformed: "none" (well formed), or the reason it cannot be honoured
+DeriveVerdict(decl, malformed) ==
+    /\ out' = [compiled |-> (malformed = "none" /\ DeclWellFormed(decl))]
     /\ OnlyOut
 
 (***************************************************************************)
